@@ -60,9 +60,9 @@ def annAct {S E : Type} (P : PLang) (B : Builder S E) (s : EState S E) (rest : L
 /-- one iteration: the next loop state and the tokens left -/
 def tokAct {S E : Type} (P : PLang) (B : Builder S E) (inputs : List E) (defaults : Bool)
     (s : EState S E) (tok : String) (rest : List String) : Except PErr (EState S E × List String) :=
-  if tok == "#" then .ok ({ s with comment := true, prevTok := tok }, rest)
-  else if tok == "\n" then .ok ({ s with comment := false, prevTok := tok }, rest)
-  else if s.comment then .ok ({ s with prevTok := tok }, rest)
+  if tok == "#" then .ok ({ s with comment := true }, rest)
+  else if tok == "\n" then .ok ({ s with comment := false }, rest)
+  else if s.comment then .ok (s, rest)
   else if tok == "(" || tok == "," || tok == ")" then
     match (if tok == ")" || tok == "," then closeStack B s.st s.stack else .ok (s.st, s.stack)) with
     | .error e => .error e
@@ -457,11 +457,11 @@ theorem tokAct_sim (H : BuilderSim P B B' strict ann Rs Re step) {inputs : List 
   unfold tokAct
   rw [hcm]
   split
-  · exact ⟨_, rfl, ⟨h.st, h.stack, rfl, rfl, h.inputs⟩, H.refl _⟩
+  · exact ⟨_, rfl, ⟨h.st, h.stack, rfl, h.prevTok, h.inputs⟩, H.refl _⟩
   split
-  · exact ⟨_, rfl, ⟨h.st, h.stack, rfl, rfl, h.inputs⟩, H.refl _⟩
+  · exact ⟨_, rfl, ⟨h.st, h.stack, rfl, h.prevTok, h.inputs⟩, H.refl _⟩
   split
-  · exact ⟨_, rfl, ⟨h.st, h.stack, rfl, rfl, h.inputs⟩, H.refl _⟩
+  · exact ⟨_, rfl, ⟨h.st, h.stack, hcm, h.prevTok, h.inputs⟩, H.refl _⟩
   split
   · have hr : RelK strict Rs Re step s.st
         (if tok == ")" || tok == "," then closeStack B s.st s.stack else .ok (s.st, s.stack))
